@@ -15,89 +15,106 @@ type F = Fr381;
 
 macro_rules! record_fn {
     ($fname:ident, $A:ty, $L:ty) => {
-        fn $fname(scheme: &str, size: usize, beh_nv: i64) -> Vec<Value> {
-    let mut out = vec![];
-    let mut rng = rng_for("columns", size as u64);
-    let beh = crate::beh::Beh {
-        id: format!("col-{}-{}", scheme, size),
-        prop: "C13".into(),
-        scheme: scheme.into(),
-        max_degree: size as i64,
-        num_vars: beh_nv,
-        supported: size as i64,
-        hiding: 0,
-        bounds: vec![],
-        nobounds: true,
-        polys: vec![],
-        rng: false,
-        ops: vec![],
-        adv: vec![],
-        expect: Default::default(),
-        ser: vec![],
-        tag: String::new(),
-    };
-    let pp = match crate::session::cached_setup::<$A>(size as i64, beh_nv) {
-        Out::Ok(p) => p,
-        o => return vec![json!({"scheme": scheme, "size": size, "error": format!("setup: {}", o.detail())})],
-    };
-    let (ck, vk) = match guarded(|| <$A as Adapter>::PC::trim(&pp, size, 0, None)) {
-        Out::Ok(k) => k,
-        o => return vec![json!({"scheme": scheme, "size": size, "error": format!("trim: {}", o.detail())})],
-    };
-    let spec = crate::beh::PolySpec { l: 1, cls: "full".into(), deg: size as i64, lz: 0, bound: -1, hid: -1 };
-    let p = <$A as Adapter>::make_poly(&spec, &beh, &mut rng);
-    let lp = LabeledPolynomial::new("p01".to_string(), p, None, None);
-    let (comms, states) = match guarded(|| <$A as Adapter>::PC::commit(&ck, std::iter::once(&lp), None)) {
-        Out::Ok(c) => c,
-        o => return vec![json!({"scheme": scheme, "size": size, "error": format!("commit: {}", o.detail())})],
-    };
-    let point = <$A as Adapter>::make_point(1, &beh);
-    let sp0 = LogSponge::<F>::fresh();
-    let mut sp = sp0.clone();
-    let proof = match guarded(|| <$A as Adapter>::PC::open(&ck, std::iter::once(&lp), comms.iter(), &point, &mut sp, states.iter(), None)) {
-        Out::Ok(p) => p,
-        o => return vec![json!({"scheme": scheme, "size": size, "error": format!("open: {}", o.detail())})],
-    };
-    let (n_rows, n_cols, n_ext, root) = lc::commitment_parts::<MTConfig>(comms[0].commitment());
-    let (paths, v, cols, wf) = lc::proof_parts(&proof[0]);
-    // independent walk of the verifier's transcript to obtain the squeezed index bytes
-    let mut tr = sp0.clone();
-    let mut rb = Vec::new();
-    root.serialize_compressed(&mut rb).unwrap();
-    tr.absorb(&rb);
-    if vk.check_well_formedness() {
-        let _r: Vec<F> = tr.squeeze_field_elements(n_rows);
-        if let Some(w) = &wf {
-            tr.absorb(w);
-        }
-    }
-    tr.absorb(&<$L>::point_to_vec(point.clone()));
-    tr.absorb(&v);
-    let nbytes = ((usize::BITS - n_ext.leading_zeros()) as usize + 7) / 8;
-    let mut bytes = vec![];
-    for _ in 0..paths.len() {
-        let b = tr.squeeze_bytes(nbytes);
-        tr.absorb(&b);
-        bytes.push(b.iter().map(|x| *x as u64).collect::<Vec<u64>>());
-    }
-    // the prover's transcript must end where this walk ends
-    let lock = tr.state_digest() == sp.state_digest();
-    let accept = {
-        let mut spv = sp0.clone();
-        let val = lp.evaluate(&point);
-        matches!(guarded(|| <$A as Adapter>::PC::check(&vk, comms.iter(), &point, vec![val], &proof, &mut spv, None)), Out::Ok(true))
-    };
-    let (d0, d1) = vk.distance();
-    out.push(json!({
-        "scheme": scheme, "size": size, "n_rows": n_rows, "n_cols": n_cols, "n_ext": n_ext,
-        "lam": vk.sec_param(), "d0": d0, "d1": d1, "bits": F::MODULUS_BIT_SIZE,
-        "ncols": cols.len(), "npaths": paths.len(),
-        "leaf": paths.iter().map(|p| p.leaf_index).collect::<Vec<_>>(),
-        "colrows": cols.iter().map(|c| c.len()).collect::<Vec<_>>(),
-        "bytes": bytes, "vlen": v.len(), "wflen": wf.map(|w| w.len() as i64).unwrap_or(-1),
-        "transcript_consistent": lock, "accepted": accept,
-    }));
-    out
+        /// One `open` call over polynomials of the given sizes (one record per polynomial).
+        fn $fname(scheme: &str, sizes: &[usize], beh_nv: i64) -> Vec<Value> {
+            let size = sizes[0];
+            let tag = sizes.iter().map(|x| x.to_string()).collect::<Vec<_>>().join("+");
+            let mut out = vec![];
+            let mut rng = rng_for("columns", size as u64 + 1000 * sizes.len() as u64);
+            let maxsize = *sizes.iter().max().unwrap();
+            let beh = crate::beh::Beh {
+                id: format!("col-{}-{}", scheme, tag),
+                prop: "C13".into(),
+                scheme: scheme.into(),
+                max_degree: maxsize as i64,
+                num_vars: beh_nv,
+                supported: maxsize as i64,
+                hiding: 0,
+                bounds: vec![],
+                nobounds: true,
+                polys: vec![],
+                rng: false,
+                ops: vec![],
+                adv: vec![],
+                expect: Default::default(),
+                ser: vec![],
+                tag: String::new(),
+            };
+            let err = |w: String| vec![json!({"scheme": scheme, "size": tag.clone(), "error": w})];
+            let pp = match crate::session::cached_setup::<$A>(maxsize as i64, beh_nv) {
+                Out::Ok(p) => p,
+                o => return err(format!("setup: {}", o.detail())),
+            };
+            let (ck, vk) = match guarded(|| <$A as Adapter>::PC::trim(&pp, maxsize, 0, None)) {
+                Out::Ok(k) => k,
+                o => return err(format!("trim: {}", o.detail())),
+            };
+            let lps: Vec<_> = sizes.iter().enumerate().map(|(i, sz)| {
+                let spec = crate::beh::PolySpec { l: i as i64 + 1, cls: "full".into(), deg: *sz as i64, lz: 0, bound: -1, hid: -1 };
+                let p = <$A as Adapter>::make_poly(&spec, &beh, &mut rng);
+                LabeledPolynomial::new(plabel(i as i64 + 1), p, None, None)
+            }).collect();
+            let (comms, states) = match guarded(|| <$A as Adapter>::PC::commit(&ck, lps.iter(), None)) {
+                Out::Ok(c) => c,
+                o => return err(format!("commit: {}", o.detail())),
+            };
+            let point = <$A as Adapter>::make_point(1, &beh);
+            let sp0 = LogSponge::<F>::fresh();
+            let mut sp = sp0.clone();
+            let proof = match guarded(|| <$A as Adapter>::PC::open(&ck, lps.iter(), comms.iter(), &point, &mut sp, states.iter(), None)) {
+                Out::Ok(p) => p,
+                o => return err(format!("open: {}", o.detail())),
+            };
+            if proof.len() != sizes.len() {
+                return err(format!("{} proof entries for {} polynomials", proof.len(), sizes.len()));
+            }
+            let accept = {
+                let mut spv = sp0.clone();
+                let vals: Vec<F> = lps.iter().map(|p| p.evaluate(&point)).collect();
+                matches!(guarded(|| <$A as Adapter>::PC::check(&vk, comms.iter(), &point, vals, &proof, &mut spv, None)), Out::Ok(true))
+            };
+            // independent walk of the verifier's transcript to obtain the squeezed index bytes
+            let mut tr = sp0.clone();
+            let mut recs = vec![];
+            for j in 0..sizes.len() {
+                let (n_rows, n_cols, n_ext, root) = lc::commitment_parts::<MTConfig>(comms[j].commitment());
+                let (paths, v, cols, wf) = lc::proof_parts(&proof[j]);
+                let mut rb = Vec::new();
+                root.serialize_compressed(&mut rb).unwrap();
+                tr.absorb(&rb);
+                if vk.check_well_formedness() {
+                    let _r: Vec<F> = tr.squeeze_field_elements(n_rows);
+                    if let Some(w) = &wf {
+                        tr.absorb(w);
+                    }
+                }
+                tr.absorb(&<$L>::point_to_vec(point.clone()));
+                tr.absorb(&v);
+                let nbytes = ((usize::BITS - n_ext.leading_zeros()) as usize + 7) / 8;
+                let mut bytes = vec![];
+                for _ in 0..paths.len() {
+                    let b = tr.squeeze_bytes(nbytes);
+                    tr.absorb(&b);
+                    bytes.push(b.iter().map(|x| *x as u64).collect::<Vec<u64>>());
+                }
+                let (d0, d1) = vk.distance();
+                recs.push(json!({
+                    "scheme": scheme, "size": format!("{}[{}]", tag, j), "n_rows": n_rows, "n_cols": n_cols, "n_ext": n_ext,
+                    "lam": vk.sec_param(), "d0": d0, "d1": d1, "bits": F::MODULUS_BIT_SIZE,
+                    "ncols": cols.len(), "npaths": paths.len(),
+                    "leaf": paths.iter().map(|p| p.leaf_index).collect::<Vec<_>>(),
+                    "colrows": cols.iter().map(|c| c.len()).collect::<Vec<_>>(),
+                    "bytes": bytes, "vlen": v.len(), "wflen": wf.map(|w| w.len() as i64).unwrap_or(-1),
+                    "accepted": accept,
+                }));
+            }
+            // the prover's transcript must end where this walk ends
+            let lock = tr.state_digest() == sp.state_digest();
+            for mut r in recs {
+                r["transcript_consistent"] = json!(lock);
+                out.push(r);
+            }
+            out
         }
     };
 }
@@ -105,15 +122,19 @@ record_fn!(record_uni, LigeroUni, ark_poly_commit::linear_codes::UnivariateLiger
 record_fn!(record_ml, LigeroMl, ark_poly_commit::linear_codes::MultilinearLigero<F, MTConfig, MlPoly<F>, ColH<F>>);
 record_fn!(record_bd, Brakedown, ark_poly_commit::linear_codes::MultilinearBrakedown<F, MTConfig, MlPoly<F>, ColH<F>>);
 
-pub fn columns(sizes_uni: &[usize], nvs: &[usize]) -> Vec<Value> {
+pub fn columns(sizes_uni: &[usize], nvs: &[usize], batches: &[Vec<usize>]) -> Vec<Value> {
     use ark_poly_commit::linear_codes::{MultilinearBrakedown, MultilinearLigero, UnivariateLigero};
     let mut out = vec![];
     for s in sizes_uni {
-        out.extend(record_uni("ligero_uni", *s, -1));
+        out.extend(record_uni("ligero_uni", &[*s], -1));
+    }
+    for b in batches {
+        out.extend(record_uni("ligero_uni", b, -1));
     }
     for nv in nvs {
-        out.extend(record_ml("ligero_ml", 1, *nv as i64));
-        out.extend(record_bd("brakedown", 1, *nv as i64));
+        out.extend(record_ml("ligero_ml", &[1], *nv as i64));
+        out.extend(record_ml("ligero_ml", &[1, 1], *nv as i64));
+        out.extend(record_bd("brakedown", &[1], *nv as i64));
     }
     out
 }
@@ -173,7 +194,7 @@ pub fn encoding(n: usize) -> Vec<Value> {
     use ark_poly_commit::linear_codes::{MultilinearBrakedown, MultilinearLigero, UnivariateLigero};
     let mut out = vec![];
     for size in [3usize, 16, 100] {
-        let recs = record_uni("ligero_uni", size, -1);
+        let recs = record_uni("ligero_uni", &[size], -1);
         let r = &recs[0];
         if r.get("error").is_some() {
             out.push(json!({"what": "encode_ligero_uni", "cases": 1, "ok": false, "why": r["error"]}));
@@ -184,14 +205,14 @@ pub fn encoding(n: usize) -> Vec<Value> {
             "encode_ligero_uni", &pp, r["n_cols"].as_u64().unwrap() as usize, r["n_ext"].as_u64().unwrap() as usize, n));
     }
     for nv in [3usize, 6] {
-        let recs = record_ml("ligero_ml", 1, nv as i64);
+        let recs = record_ml("ligero_ml", &[1], nv as i64);
         let r = &recs[0];
         if r.get("error").is_none() {
             let pp = crate::session::cached_setup::<LigeroMl>(1, nv as i64).ok().unwrap();
             out.push(lin_one::<MultilinearLigero<F, MTConfig, MlPoly<F>, ColH<F>>, MlPoly<F>>(
                 "encode_ligero_ml", &pp, r["n_cols"].as_u64().unwrap() as usize, r["n_ext"].as_u64().unwrap() as usize, n));
         }
-        let recs = record_bd("brakedown", 1, nv as i64);
+        let recs = record_bd("brakedown", &[1], nv as i64);
         let r = &recs[0];
         if r.get("error").is_none() {
             let pp = crate::session::cached_setup::<Brakedown>(1, nv as i64).ok().unwrap();
